@@ -40,6 +40,15 @@ ERRORS = {
     "missing-include": ".include 'no_such_file.s'",
     "missing-incbin": ".incbin 'no_such_file.bin'",
     "too-few-macro-args": ".macro two(a, b) {\n.db a, b\n}\ntwo(1)",
+    # the same kinds of error INSIDE a construct whose expansion is selected / repeated / spliced
+    "undefined-macro-inside-taken-if": ".if 1 {\nno_such_macro(1)\n} else {\nnop\n}",
+    "undefined-code-block-inside-taken-if": ".if 1 {\n{{ no_such_block }}\n}",
+    "undefined-macro-inside-else": ".if 0 {\nnop\n} else {\nno_such_macro(1)\n}",
+    "undefined-macro-inside-for": ".for k := 0, 2 {\nno_such_macro(k)\n}",
+    "undefined-macro-inside-macro-body": ".macro outer_m() {\nno_such_macro(1)\n}\nouter_m()",
+    "undefined-symbol-inside-block": "{\nlda.w missing_symbol\n}",
+    "stray-closing-brace": "}\nnop",
+    "stray-closing-brace-after-block": "{\nnop\n}\n}\nnop",
 }
 
 
